@@ -51,6 +51,8 @@ def dispatch1 (op : String) (j : Json) : R Json :=
   | "uniqNames" => hUniqNames j
   | "noiseVar" => hNoiseVar j
   | "ldPlan" => hLdPlan j
+  | "calcLd" => hCalcLd j
+  | "ldStat" => hLdStat j
   | "splitLines" => hSplitLines j
   | "seedGuard" => hSeedGuard j
   | "cliParse" => hCliParse j
